@@ -1,53 +1,126 @@
 import CattrsModel.Core.Wire
 import CattrsModel.Conv.Encoding
+import CattrsModel.Lemmas.RoundTripBase
 /-!
 # Line-protocol operations of the data-path model (driver only)
 -/
 namespace CattrsModel
 open Sexp
 
+/-! ### payloads on which the outcome of a union hook depends on Python's `set` iteration order
+
+`create_default_dis_func` pins each class to ONE of its unique required keys, whichever the iteration of a `set`
+yields first (hash-seed dependent).  For the unstructured form of a member instance this makes no difference
+(`C12_order`); for an arbitrary (mutated) payload that holds some but not all of a class's candidate keys it does.
+The model fixes one enumeration, so such payloads are answered `unmodelled`. -/
+
+/-- per pinned class: the keys it can be pinned to (required, unique among the classes not yet pinned) -/
+partial def pinCands (t : Disambig.Table) (rem : List Nat) : List (Nat × List String) :=
+  let p := rem.filterMap (fun c =>
+    let ks := (Disambig.uniqKeys t rem c).filter (fun k => (t.cls c).keyIsReq k)
+    if ks.isEmpty then Option.none else some (c, ks))
+  if p.isEmpty then [] else p ++ pinCands t (rem.filter (fun c => !(p.map (·.1)).contains c))
+
+partial def orderSensitive (t : Disambig.Table) (ms : List Nat) (p : Disambig.Payload) : Bool :=
+  if ms.length < 2 then false else
+  match Disambig.litSelect Disambig.sortStr t ms with
+  | some d =>
+    match p.lookup d with
+    | Option.none => false
+    | some v =>
+      match Disambig.bucket t ms d v with
+      | m :: m' :: rest => orderSensitive t (m :: m' :: rest) p
+      | _ => false
+  | Option.none =>
+    let keys := Disambig.pkeys p
+    (pinCands t (Disambig.sortDesc t ms)).any (fun ck => ck.2.any keys.contains && !ck.2.all keys.contains)
+
 /-- Is the call outside the modelled fragment? (over-approximation; such cases are answered
 `unmodelled` and excluded from the comparison) -/
-partial def unmodelledST (w : World) (cfg : Cfg) : Ty → Obj → Bool
+partial def unmodelledSTcore (w : World) (cfg : Cfg) : Ty → Obj → Bool
   | .coll _ t, o =>
       match o with
       | .str _ | .bytes _ => true
-      | .coll _ xs => xs.any (unmodelledST w cfg t)
-      | .dict kvs => kvs.any (fun kv => unmodelledST w cfg t kv.1)
+      | .coll _ xs => xs.any (unmodelledSTcore w cfg t)
+      | .dict kvs => kvs.any (fun kv => unmodelledSTcore w cfg t kv.1)
       | _ => false
   | .tupleHet ts, o =>
       match o with
       | .str _ | .bytes _ => true
-      | .coll _ xs => (ts.zip xs).any (fun (t, x) => unmodelledST w cfg t x)
-      | .dict kvs => (ts.zip kvs).any (fun (t, kv) => unmodelledST w cfg t kv.1)
+      | .coll _ xs => (ts.zip xs).any (fun (t, x) => unmodelledSTcore w cfg t x)
+      | .dict kvs => (ts.zip kvs).any (fun (t, kv) => unmodelledSTcore w cfg t kv.1)
       | _ => false
   | .map _ kt vt, o =>
       match o with
-      | .dict kvs => kvs.any (fun kv => unmodelledST w cfg kt kv.1 || unmodelledST w cfg vt kv.2)
+      | .dict kvs => kvs.any (fun kv => unmodelledSTcore w cfg kt kv.1 || unmodelledSTcore w cfg vt kv.2)
       | .coll _ _ => true          -- dict(iterable of pairs)
       | .str _ | .bytes _ => true
       | _ => false
-  | .opt t, o => unmodelledST w cfg t o
-  | .wrap _ t, o => unmodelledST w cfg t o
+  | .opt t, o => unmodelledSTcore w cfg t o
+  | .wrap _ t, o => unmodelledSTcore w cfg t o
   | .cls c, o =>
       if cfg.tupleStrat then
         match o with
         | .str _ | .bytes _ => true
-        | .coll _ xs => ((w.fields c).zip xs).any (fun (f, x) => match f.ty with | some t => unmodelledST w cfg t x | Option.none => false)
-        | .dict kvs => ((w.fields c).zip kvs).any (fun (f, kv) => match f.ty with | some t => unmodelledST w cfg t kv.1 | Option.none => false)
+        | .coll _ xs => ((w.fields c).zip xs).any (fun (f, x) => match f.ty with | some t => unmodelledSTcore w cfg t x | Option.none => false)
+        | .dict kvs => ((w.fields c).zip kvs).any (fun (f, kv) => match f.ty with | some t => unmodelledSTcore w cfg t kv.1 | Option.none => false)
         | _ => false
       else match o with
         | .dict kvs => (w.fields c).any (fun f => match f.ty, dlookup kvs f.key with
-            | some t, some v => unmodelledST w cfg t v
+            | some t, some v => unmodelledSTcore w cfg t v
             | _, _ => false)
         | _ => false
   | .td c, o =>
       !cfg.gen || (match o with
         | .dict kvs => (w.fields c).any (fun f => match f.ty, dlookup kvs f.key with
-            | some t, some v => unmodelledST w cfg t v
+            | some t, some v => unmodelledSTcore w cfg t v
             | _, _ => false)
         | _ => false)
+  | .union cs hn, o =>
+      (match o with
+       | .dict kvs => orderSensitive w.table cs (disPayload w.litPool kvs)
+       | _ => false) ||
+      match unionPick w cs hn o with
+      | .ok m => unmodelledSTcore w cfg (.cls m) o
+      | _ => false
   | _, _ => false
+
+/-! ### hook creation
+
+The data-path model decides a refused creation of a union hook where the union position is *reached* by the payload.
+The real hook factories create the hooks of component types eagerly (a `list[Union[A, B]]` hook cannot be created
+when the union's cannot, whatever the payload), so a refused union that is merely *reachable* from the type makes the
+call fail before any payload is looked at.  The driver answers such cases itself when the refused union is the
+type at hand, and `unmodelled` when it is nested. -/
+
+partial def tyUnions : Ty → List (List Nat)
+  | .union cs _ => [cs]
+  | .coll _ t => tyUnions t
+  | .opt t => tyUnions t
+  | .wrap _ t => tyUnions t
+  | .tupleHet ts => ts.flatMap tyUnions
+  | .map _ k v => tyUnions k ++ tyUnions v
+  | _ => []
+
+/-- `create_default_dis_func` raises (or the union is not a supported one) -/
+def unionRefused (w : World) (cs : List Nat) : Bool :=
+  !(unionMembersOk w cs && Disambig.createOk Disambig.SetOrder.id w.table cs)
+
+/-- the type itself and the field types of every class reachable from it -/
+def reachTypes (w : World) (ty : Ty) : List Ty :=
+  ty :: (w.reach w.classes.length ty.refs ty.refs).flatMap (fun c => (w.fields c).filterMap (·.ty))
+
+def refusedReach (w : World) (ty : Ty) : Bool :=
+  (reachTypes w ty).any (fun t => (tyUnions t).any (unionRefused w))
+
+def topRefused (w : World) : Ty → Bool
+  | .union cs _ => unionRefused w cs
+  | _ => false
+
+/-- Is the call outside the modelled fragment?  (payload shapes the model does not cover, or a refused union
+hook that is only reachable, not reached) -/
+def unmodelledST (w : World) (cfg : Cfg) (ty : Ty) (o : Obj) : Bool :=
+  refusedReach w ty || unmodelledSTcore w cfg ty o
 
 def hasMark (s : String) : Bool := (s.splitOn "\\uffff").length > 1
 
@@ -62,7 +135,15 @@ def convHandle (w : World) (op : String) (args : List Sexp) : Option Sexp :=
       if !conf w ty o then some (.atom "unmodelled") else some (replyObj (convUnstructure w cfg ty o))
   | "ST", [cfg, ty, o] => do
       let cfg ← cfgOfSexp cfg; let ty ← tyOfSexp ty; let o ← objOfSexp o
-      if unmodelledST w cfg ty o then some (.atom "unmodelled")
+      if topRefused w ty then
+        some (if cfg.detailed then .list [.atom "err", sexpOfErr .leaf] else .list [.atom "err"])
+      else if unmodelledSTcore w cfg ty o then some (.atom "unmodelled")
+      else if refusedReach w ty then
+        -- a refused union nested in the type: if the payload reaches it (the model raises) the call fails whether the
+        -- hook is created eagerly or lazily; if not, it depends on the factory (eager: raises; lazy: fine) -- not modelled
+        match stF w cfg.core ty o with
+        | Option.none => some (if cfg.detailed then .list [.atom "err", sexpOfErr .leaf] else .list [.atom "err"])
+        | some _ => some (.atom "unmodelled")
       else if cfg.detailed then
         match stD w cfg.core ty o with
         | .ok v => some (replyObj v)
@@ -76,6 +157,12 @@ def convHandle (w : World) (op : String) (args : List Sexp) : Option Sexp :=
       let cfg ← cfgOfSexp cfg; let ty ← tyOfSexp ty; let o ← objOfSexp o
       some (.list [ofBool (wellTyped w ty o), ofBool (ty.supU cfg.gen && w.supUB cfg.gen && w.tdAcyclicB),
                    ofBool ((convUnstructure w cfg ty o).prim (!cfg.gen))])
+  | "USCOPE", [tup, ty] => do
+      -- union hypotheses of the C01 theorems (`unionsOK`) for this type and for the class table; refusal reachable?
+      let tup ← bool? tup; let ty ← tyOfSexp ty
+      let wok := w.classes.all (fun c => c.fields.all (fun f => match f.ty with
+        | some t => t.unionsOK w tup | Option.none => true))
+      some (.list [ofBool (ty.unionsOK w tup && wok), ofBool (refusedReach w ty), ofBool ty.noUnion])
   | "CONF", [ty, o] => do
       let ty ← tyOfSexp ty; let o ← objOfSexp o
       some (ofBool (conf w ty o))
